@@ -43,7 +43,7 @@ class Replay:
                 self.build()
             self.proc = subprocess.Popen([self.bin], stdin=subprocess.PIPE, stdout=subprocess.PIPE, text=True)
 
-    def run(self, case, timeout=20):
+    def run(self, case, timeout=8):
         """one request to the persistent replay process; a reply that does not arrive within `timeout` seconds means the
         real code does not terminate on this input (the process is killed and restarted for the next request)"""
         import select
